@@ -436,7 +436,7 @@ factor 2; the unit right triangle is mapped to a triangle in the plane `z = 3`; 
 example :
     let t : Tf.Xf ℚ := .jcons (.scale (-2)) (.jcons (.ortho ⟨0, -1, 0, 1, 0, 0, 0, 0, 1⟩) (.jcons (.translate ⟨1, 1, 3⟩) .jnil))
     let tri := fun (q : V3 ℚ) (ρ : ℚ) => triBallSpec ⟨0, 0, 0⟩ ⟨1, 0, 0⟩ ⟨0, 1, 0⟩ q (ρ * ρ)
-    t.applyDistance 1 = 2 ∧ xfApply t ⟨1, 0, 0⟩ = ⟨1, -1, 3⟩ ∧
+    t.applyDistance 1 = 2 ∧ ((xfApply t ⟨1, 0, 0⟩).x, (xfApply t ⟨1, 0, 0⟩).y, (xfApply t ⟨1, 0, 0⟩).z) = (1, -1, 3) ∧
     tSphere t tri ⟨3/2, 1/2, 5⟩ (3/2) = false ∧ tSphere t tri ⟨3/2, 1/2, 5⟩ (5/2) = true ∧
     tri (xfApply t.inverse ⟨3/2, 1/2, 5⟩) (t.applyDistance (3/2)) = true := by
   refine ⟨?_, ?_, ?_, ?_, ?_⟩ <;> decide +kernel
